@@ -74,6 +74,17 @@ def getattr(I, st, v, name):
             m, where = I.class_lookup(e.cls, name)
             from .values import PropertyVal
 
+            if name not in e.attrs and st.ghost:
+                # a class attribute rebound at run time (Cls.attr = value) is what instances see, nearest class first
+                for c in I.mro(e.cls):
+                    if isinstance(c, ClassVal) and ("classattr", id(c.node), name) in st.ghost:
+                        gv = st.ghost[("classattr", id(c.node), name)]
+                        if isinstance(gv, (FuncVal, PropertyVal)):
+                            raise Unsupported("method/property %s rebound on a class at run time" % name)
+                        yield st, gv
+                        return
+                    if where is not None and c == where:
+                        break  # the first class that defines the name statically wins over rebindings further up
             if isinstance(m, PropertyVal):
                 yield from I.call(m.fget, [v], {}, st)
                 return
@@ -146,6 +157,24 @@ def getattr(I, st, v, name):
             return
         if v.name == "float" and name == "fromhex":
             raise Unsupported("float.fromhex")
+        if v.name == "object" and name == "__setattr__":
+            # object.__setattr__(obj, name, value): the default attribute store (bypasses a __setattr__ override);
+            # a property / descriptor of that name on the class would intercept it -> outside the model
+            def _osa(I, st, a, k):
+                obj, nm, val = a
+                if not isinstance(nm, str):
+                    raise Unsupported("object.__setattr__ with symbolic name")
+                if isinstance(obj, Ref) and st.get(obj).kind == "obj":
+                    from .values import PropertyVal
+
+                    g, _ = I.class_lookup(st.get(obj).cls, nm)
+                    if isinstance(g, PropertyVal) or (isinstance(g, FuncVal) and "property" in g.decorators()) or (
+                            isinstance(g, Ref) and st.get(g).kind == "obj" and I.class_lookup(st.get(g).cls, "__set__")[0] is not None):
+                        raise Unsupported("object.__setattr__ on a property/descriptor attribute")
+                yield from setattr(I, st, obj, nm, val, raw=True)
+
+            yield st, bi("object.__setattr__", _osa)
+            return
         raise Unsupported("attribute %s of builtin class %s" % (name, v.name))
     if isinstance(v, SuperVal):
         selfv = v.self_val
@@ -1351,6 +1380,21 @@ def make_builtins(I):
     return B
 
 
+class PickleBlob:
+    """result of pickle.dumps(plain data): an immutable bytes object whose content is only read by pickle.loads"""
+
+    def __init__(self, payload):
+        self.payload = payload
+
+    def __eq__(self, other):
+        if other is self:
+            return True
+        raise Unsupported("== on pickled bytes")
+
+    def __hash__(self):
+        return id(self)
+
+
 class SymSetOf:
     """set(L) / list(set(L)) for a symbolic-length list L: only sorted() of it is modelled"""
 
@@ -1689,6 +1733,44 @@ def make_ext_modules(I):
         yield st, dc(a[0])
 
     E["copy"] = {"copy": bi("copy.copy", cp_copy), "deepcopy": bi("copy.deepcopy", cp_deepcopy)}
+
+    # ---- pickle of PLAIN DATA only: numbers, bool, None, str, bytes, earlier pickles, tuples/lists/dicts/sets/arrays of these.
+    # dumps() freezes a structurally equal, disjoint copy; loads() hands out a fresh copy of it.  Anything else
+    # (instances, functions, classes) is outside the model -> Unsupported.
+    def _plain_copy(st, v, what):
+        from . import bytesmodel
+
+        if v is None or isinstance(v, (bool, int, Fraction, str, bytes, PickleBlob, bytesmodel.BytesVal)) or is_z3(v):
+            if is_z3(v) and not (z3.is_int(v) or z3.is_real(v) or z3.is_bool(v)):
+                raise Unsupported("%s of a term of sort %s" % (what, v.sort()))
+            return v
+        if isinstance(v, tuple) and type(v) is tuple:
+            return tuple(_plain_copy(st, x, what) for x in v)
+        if isinstance(v, Ref):
+            e = st.get(v)
+            if e.kind == "list":
+                return st.alloc(ListE([_plain_copy(st, x, what) for x in e.items]))
+            if e.kind == "dict" and getattr_py(e, "default_factory") is None:
+                return st.alloc(DictE({_plain_copy(st, kk, what): _plain_copy(st, x, what) for kk, x in e.items.items()}))
+            if e.kind == "set":
+                return st.alloc(SetE([_plain_copy(st, x, what) for x in e.items]))
+            if e.kind == "nd":
+                return st.alloc(NdE(e.shape, [_plain_copy(st, x, what) for x in e.data]))
+        if isinstance(v, ClassVal) and what == "pickle":
+            # classes are pickled by reference (module-level name): the same class object comes back
+            return v
+        raise Unsupported("%s of %r (only plain data is modelled)" % (what, v))
+
+    def pk_dumps(I, st, a, k):
+        I.trust("pickle", "A6: pickle.loads(pickle.dumps(x)) of plain data (numbers, None, str, bytes, containers of these) is a structurally equal, disjoint copy")
+        yield st, PickleBlob(_plain_copy(st, a[0], "pickle"))
+
+    def pk_loads(I, st, a, k):
+        if not isinstance(a[0], PickleBlob):
+            raise Unsupported("pickle.loads of something that is not a modelled pickle.dumps result")
+        yield st, _plain_copy(st, a[0].payload, "pickle")
+
+    E["pickle"] = {"dumps": bi("pickle.dumps", pk_dumps), "loads": bi("pickle.loads", pk_loads)}
     from .values import Partial
 
     E["functools"] = {"partial": bi("functools.partial", lambda I, st, a, k: iter([(st, Partial(a[0], a[1:], k))])),
